@@ -39,6 +39,16 @@ ReplyOk(exp, got) ==
 
 Empty == [k \in {} |-> 0]
 (* run commands i..Len one after the other: [rs |-> replies, s |-> final state] *)
+(* where RedisKeyspace allows several outcomes (DoAlts: the loose rules of C01), the one the observed reply *)
+(* matches is followed; got = <<>> means no observation is available for the position                  *)
+DoSeen(c, st, got, i) ==
+  IF i > Len(got) THEN Do(c, st, 0)
+  ELSE LET M == {a \in DoAlts(c, st, 0) : ReplyOk(a.r, got[i])} IN IF M = {} THEN Do(c, st, 0) ELSE CHOOSE a \in M : TRUE
+RECURSIVE RunSeen(_, _, _, _)
+RunSeen(cmds, i, st, got) == IF i > Len(cmds) THEN [rs |-> <<>>, s |-> st]
+                    ELSE LET r == DoSeen(cmds[i], st, got, i)
+                             rest == RunSeen(cmds, i + 1, r.s, got)
+                         IN [rs |-> <<r.r>> \o rest.rs, s |-> rest.s]
 RECURSIVE RunSeq(_, _, _)
 RunSeq(cmds, i, st) == IF i > Len(cmds) THEN [rs |-> <<>>, s |-> st]
                     ELSE LET r == Do(cmds[i], st, 0)
@@ -59,7 +69,7 @@ JunkIsMalformed(c) == "junk" \in DOMAIN c /\ Len(c.junk) > 0 /\ R!Decode(c.junk)
 PipeVerdict(c) ==
   IF "panic" \in DOMAIN c THEN "connection handler panicked"
   ELSE IF "junk" \in DOMAIN c /\ Len(c.junk) > 0 THEN
-       LET exp == RunSeq(c.cmds, 1, Empty)
+       LET exp == RunSeen(c.cmds, 1, Empty, c.replies)
            n == Len(c.cmds)
        IN IF Len(c.replies) < n THEN "fewer replies than commands (a command was swallowed or the handler hung)"
           ELSE IF \E i \in 1..n : ~ReplyOk(exp.rs[i], c.replies[i]) THEN "a damaged frame altered the reply to an earlier command"
@@ -67,7 +77,7 @@ PipeVerdict(c) ==
                (IF StrayByteShape(c.junk) THEN "finding:fast_path_stray_byte"
                 ELSE "a malformed frame was not answered by an error reply (silence or a hang)")
           ELSE "ok"
-  ELSE LET exp == RunSeq(c.cmds, 1, Empty)
+  ELSE LET exp == RunSeen(c.cmds, 1, Empty, c.replies)
            n == Len(c.cmds)
        IN IF Len(c.replies) < n THEN "fewer replies than commands (a command was swallowed or the handler hung)"
           ELSE IF \E i \in 1..n : ~ReplyOk(exp.rs[i], c.replies[i]) THEN "a reply differs from the reply of the command sent alone after its predecessors"
